@@ -9,6 +9,11 @@ Import ListNotations.
 Lemma exp_lockset_ok : lockset_ok exp_thr exp_multi exporter_accesses = true.
 Proof. vm_compute. reflexivity. Qed.
 
+(* the send mutex covers sequence number update + message creation + write in ONE critical
+   section (header order = wire order is proved for exactly that shape) *)
+Lemma exp_send_discipline : guard_discipline exporter_f_seqNumber exporter_accesses exporter_methods = true.
+Proof. vm_compute. reflexivity. Qed.
+
 Theorem exp_race_free : forall tr,
   lock_wf tr -> consistent exp_thr exp_multi exporter_accesses tr ->
   forall p3 t2 b r2 p2 t1 a r1 p1,
